@@ -108,13 +108,19 @@ static int seq_of_ptr(const void* p) {
   return -1;
 }
 /* split a datagram into nb buffers */
-static unsigned split(int seq, uv_buf_t* b) {
-  int len = dg_len[seq]; unsigned nb = 1 + (unsigned) (seq * 7 + len) % 6, k; int off = 0;
+/* split a datagram into nb buffers (nbreq <= 0: 1 + len % 6, as ocaml/drv_c10.ml); len / nb
+ * bytes each, the remainder one byte each in the LAST buffers, so with nb > len the leading
+ * buffers are empty and a datagram cut to its first buffers loses bytes */
+static uv_buf_t* split(int seq, long nbreq, unsigned* nbp) {
+  int len = dg_len[seq]; unsigned nb = nbreq > 0 ? (unsigned) nbreq : 1 + (unsigned) len % 6, k; int off = 0;
+  int base = len / (int) nb, rem = len % (int) nb;
+  uv_buf_t* b = malloc(nb * sizeof *b);
   for (k = 0; k < nb; k++) {
-    int piece = (k == nb - 1) ? len - off : len / (int) nb;
+    int piece = base + (k >= nb - (unsigned) rem ? 1 : 0);
     b[k] = uv_buf_init(dg_ptr[seq] + off, piece); off += piece;
   }
-  return nb;
+  *nbp = nb;
+  return b;
 }
 
 /* injected datagrams (plain socket -> handle) */
@@ -125,7 +131,7 @@ static unsigned char inj_byte(int j, int i) {
 }
 
 /* what the plain sockets received */
-static int rcv_seq[2][MAXD], nrcv[2];
+static int rcv_seq[2][MAXD], rcv_bad[2][MAXD], nrcv[2];   /* rcv_bad: length received when it is not the datagram's bytes */
 static void drain1(int w, int fd) {
   static char buf[BIG];
   for (;;) {
@@ -144,8 +150,11 @@ static void drain1(int w, int fd) {
               memcmp(buf, dg_ptr[h], n) == 0) { s = h; matched[k] = 1; break; }
         }
     }
-    if (s < 0 || s >= next_seq || dg_len[s] != n || memcmp(buf, dg_ptr[s], n) != 0) s = -1;
-    if (nrcv[w] < MAXD) rcv_seq[w][nrcv[w]++] = s;
+    if (s < 0 || s >= next_seq) s = -1;
+    if (nrcv[w] < MAXD) {
+      rcv_bad[w][nrcv[w]] = (s >= 0 && (dg_len[s] != n || memcmp(buf, dg_ptr[s], n) != 0)) ? (int) n : -1;
+      rcv_seq[w][nrcv[w]++] = s;
+    }
   }
 }
 static void drain(void) { drain1(0, R); drain1(1, X2); }
@@ -180,11 +189,11 @@ ssize_t __wrap_sendmsg(int fd, const struct msghdr* h, int flags) {
   if (fd != hfd || hfd < 0 || quiet) return __real_sendmsg(fd, h, flags);
   seq = h->msg_iovlen > 0 ? seq_of_ptr(h->msg_iov[0].iov_base) : -1;
   p = next_plan(splan, nsplan, &isplan);
-  if (p[0] == 'e') { errno = atoi(p + 1); out("m%d@%d=E%d ", seq, name_of(h), errno); return -1; }
+  if (p[0] == 'e') { errno = atoi(p + 1); out("m%d@%d#%zu=E%d ", seq, name_of(h), (size_t) h->msg_iovlen, errno); return -1; }
   r = __real_sendmsg(fd, h, flags);
-  if (r < 0) { int e = errno; out("m%d@%d=E%d ", seq, name_of(h), e); errno = e; return -1; }
+  if (r < 0) { int e = errno; out("m%d@%d#%zu=E%d ", seq, name_of(h), (size_t) h->msg_iovlen, e); errno = e; return -1; }
   if (nhanded < MAXD) { handed_to[nhanded] = name_of(h) ? name_of(h) : cur_peer; handed_log[nhanded++] = seq; }
-  out("m%d@%d=%zd ", seq, name_of(h), r);
+  out("m%d@%d#%zu=%zd ", seq, name_of(h), (size_t) h->msg_iovlen, r);
   return r;
 }
 
@@ -192,11 +201,11 @@ int __wrap_sendmmsg(int fd, struct mmsghdr* v, unsigned int vlen, int flags) {
   const char* p; unsigned k, n = vlen; int r;
   if (fd != hfd || hfd < 0 || quiet) return __real_sendmmsg(fd, v, vlen, flags);
   p = next_plan(splan, nsplan, &isplan);
-  out_room(vlen * 12);
+  out_room(vlen * 20);
   out("M");
   for (k = 0; k < vlen; k++)
-    out("%s%d@%d", k ? "." : "", v[k].msg_hdr.msg_iovlen > 0 ? seq_of_ptr(v[k].msg_hdr.msg_iov[0].iov_base) : -1,
-        name_of(&v[k].msg_hdr));
+    out("%s%d@%d#%zu", k ? "." : "", v[k].msg_hdr.msg_iovlen > 0 ? seq_of_ptr(v[k].msg_hdr.msg_iov[0].iov_base) : -1,
+        name_of(&v[k].msg_hdr), (size_t) v[k].msg_hdr.msg_iovlen);
   if (p[0] == 'e') { errno = atoi(p + 1); out("=E%d ", errno); return -1; }
   if (p[0] == 't') { n = (unsigned) atoi(p + 1); if (n > vlen) n = vlen; }
   if (n == 0) { out("=0 "); return 0; }
@@ -305,9 +314,15 @@ static void recv_cb(uv_udp_t* h, ssize_t nread, const uv_buf_t* buf, const struc
 static void close_cb(uv_handle_t* h) { if ((void*) h == (void*) &H) out("Z "); }
 static void prep_cb(uv_prepare_t* p) { (void) p; }
 
+/* "len:nb" items: the part after ':' goes to vb (0 when absent) */
+static long vb[MAXP];
 static int parse_list(char* s, long* v, int max) {
   int n = 0; char* save = NULL; char* t;
-  for (t = strtok_r(s, ",", &save); t && n < max; t = strtok_r(NULL, ",", &save)) v[n++] = atol(t);
+  for (t = strtok_r(s, ",", &save); t && n < max; t = strtok_r(NULL, ",", &save)) {
+    char* c = strchr(t, ':');
+    vb[n] = c ? atol(c + 1) : 0;
+    v[n++] = atol(t);
+  }
   return n;
 }
 
@@ -322,11 +337,11 @@ static void do_ops(char* ops, int in_cb) {
     if (closing_called && tok[0] != 'g' && tok[0] != 'R') continue;
     switch (tok[0]) {
     case 's': {
-      uv_buf_t b[8]; unsigned nb; int seq, id; uv_udp_send_t* req;
-      n = parse_list(tok + 1, v, 2); if (n != 2) break;
+      uv_buf_t* b; unsigned nb; int seq, id; uv_udp_send_t* req;
+      n = parse_list(tok + 1, v, 3); if (n != 2 && n != 3) break;
       seq = new_dgram((int) v[0]); id = next_id++;
       req = get_req(); req->data = (void*) (intptr_t) id;
-      nb = split(seq, b);
+      b = split(seq, n == 3 ? v[2] : 0, &nb);
       out("A%d,1,%ld ", seq, v[1]);
       {
         /* the S token goes in front of the system calls the call makes */
@@ -338,33 +353,36 @@ static void do_ops(char* ops, int in_cb) {
         if (!quiet) memmove(obuf + mark + tn, obuf + mark, olen - mark);
         if (!quiet) { memcpy(obuf + mark, tmp, (size_t) tn); olen += (size_t) tn; }
       }
+      free(b);
       break;
     }
     case 't': {
-      uv_buf_t b[8]; unsigned nb; int seq;
-      n = parse_list(tok + 1, v, 2); if (n != 2) break;
+      uv_buf_t* b; unsigned nb; int seq;
+      n = parse_list(tok + 1, v, 3); if (n != 2 && n != 3) break;
       seq = new_dgram((int) v[0]);
-      nb = split(seq, b);
+      b = split(seq, n == 3 ? v[2] : 0, &nb);
       out("A%d,1,%ld ", seq, v[1]);
       r = uv_udp_try_send(&H, b, nb, dest(v[1]));
       out("T%d,%ld=%d ", seq, v[0], r);
+      free(b);
       break;
     }
     case 'u': {
-      int cnt, k, seq0 = next_seq; uv_buf_t (*bb)[8]; uv_buf_t** bufs; unsigned* nbufs; struct sockaddr** addrs;
+      int cnt, k, seq0 = next_seq; uv_buf_t** bufs; unsigned* nbufs; struct sockaddr** addrs;
       n = parse_list(tok + 1, v, MAXP); if (n < 2) break;
       cnt = n - 2;
       out("A%d,%d,%ld ", seq0, cnt, v[1]);
-      bb = calloc(cnt + 1, sizeof *bb); bufs = calloc(cnt + 1, sizeof *bufs);
+      bufs = calloc(cnt + 1, sizeof *bufs);
       nbufs = calloc(cnt + 1, sizeof *nbufs); addrs = calloc(cnt + 1, sizeof *addrs);
       for (k = 0; k < cnt; k++) {
         int seq = new_dgram((int) v[k + 2]);
-        nbufs[k] = split(seq, bb[k]); bufs[k] = bb[k];
+        bufs[k] = split(seq, vb[k + 2], &nbufs[k]);
         addrs[k] = dest(v[1] == 3 ? 1 + seq % 2 : v[1]);
       }
       r = uv_udp_try_send2(&H, (unsigned) cnt, bufs, nbufs, addrs, (unsigned) v[0]);
       out("U%d,%d=%d ", seq0, cnt, r);
-      free(bb); free(bufs); free(nbufs); free(addrs);
+      for (k = 0; k < cnt; k++) free(bufs[k]);
+      free(bufs); free(nbufs); free(addrs);
       break;
     }
     case 'g':
@@ -488,10 +506,14 @@ int main(void) {
 
     do_ops(f[4], 0);
     drain();
-    out_room((size_t) (nrcv[0] + nrcv[1]) * 8);
+    out_room((size_t) (nrcv[0] + nrcv[1]) * 20);
     for (r = 0; r < 2; r++) {
       out(r ? " Y" : "W");
-      for (k = 0; k < nrcv[r]; k++) { if (rcv_seq[r][k] >= 0) out("%s%d", k ? "." : "", rcv_seq[r][k]); else out("%s?", k ? "." : ""); }
+      for (k = 0; k < nrcv[r]; k++) {
+        if (rcv_seq[r][k] < 0) out("%s?", k ? "." : "");
+        else if (rcv_bad[r][k] >= 0) out("%s%d/%d", k ? "." : "", rcv_seq[r][k], rcv_bad[r][k]);   /* seq/bytes received */
+        else out("%s%d", k ? "." : "", rcv_seq[r][k]);
+      }
     }
     alarm(0);
     fwrite(obuf, 1, olen, stdout); putchar('\n'); fflush(stdout);
